@@ -386,6 +386,9 @@ def rule_r8(repo, run):
     # only what reaches the C header: explicit values are stored as C_value and wrapc prints exactly those
     import_rules(run, R, c11, repo, {"C11.R1", "C11.R6"},
                  only=lambda c: c.endswith(":C_value") or c.endswith(":int-literal") or c.startswith("wrapc."))
+    # the C wrapper hands the helpers of whelpers.py the length it was given in the slot the helper reads it from (C10.R2)
+    from checks import c10
+    import_rules(run, R, c10, repo, {"C10.R2"})
 
 
 INTENT_TABLE = [
@@ -703,6 +706,7 @@ def rule_r15(repo, run):
     from checks import c06
     from sa.report import import_rules
     import_rules(run, R, c06, repo, {"C06.R10"}, only=lambda c: c.startswith("wrapc.Wrapc.compute_idtor"))
+    import_rules(run, R, c06, repo, {"C06.R14"})
 
 
 def rule_r16(repo, run):
@@ -737,6 +741,23 @@ def rule_r16(repo, run):
             arm = " ".join(ast.unparse(tt) for tt, pol in pyflow.dominating_tests(i, stop=fn) if pol)
             run.ok(R, "statements.compute_return_prefix:%s[%s]" % (t, arm))
     run.floor(R, "indirection tests of compute_return_prefix", n, 2)
+    # the pointer stored in a capsule / shadow struct is not const: every const result (pointer, reference or value whose
+    # address is taken) goes through the cast, the test is about constness alone
+    sp = wc.func("Wrapc.set_cxx_nonconst_ptr")
+    arms = 0
+    for c in ast.walk(sp):
+        if isinstance(c, ast.Constant) and isinstance(c.value, str) and ("const_cast<" in c.value or re.search(r"\(\{cxx_type\} \*\)", c.value)):
+            arms += 1
+            atoms = pyflow.path_atoms(c, stop=sp, seg=ast.unparse)
+            narrowed = [t for t, pol in atoms if pol and ("is_pointer()" in t or "is_reference()" in t or "is_indirect()" in t)]
+            has_const = any(t.endswith(".const") and pol for t, pol in atoms)
+            run.check(R, "wrapc.Wrapc.set_cxx_nonconst_ptr:%s" % ("const_cast" if "const_cast" in c.value else "C cast"),
+                      has_const and not narrowed,
+                      "the cast that removes const is applied under %s: `const Node &getConstNodeRef()` assigns `&SHCXX_rv` "
+                      "(const Node *) to the `void *addr` of the shadow struct without it (invalid conversion)"
+                      % sorted(t for t, pol in atoms if pol), wc.loc(c))
+    if arms < 2:
+        raise AnalysisError("C02.R16: the casts of set_cxx_nonconst_ptr were not found")
     # const conversions
     wfn = wc.func("Wrapc.wrap_function")
     sites = [a for a in ast.walk(wfn) if isinstance(a, ast.Assign) and ast.unparse(a.targets[0]).endswith(".c_val")
